@@ -103,7 +103,9 @@ def enum_states(ctx):
     else:
         tri = [c for c in itertools.combinations_with_replacement(range(16), 3)]
         depth2, depth3 = 8, 6
-    for flags in combos + list(tri):
+    for ci, flags in enumerate(combos + list(tri)):
+        if ci % ctx.nworkers != ctx.widx:
+            continue              # the BFS itself is sharded by flag combination
         depth = depth2 if len(flags) == 2 else depth3
         ops = all_ops(len(flags))
         seen = {}
@@ -183,4 +185,4 @@ def run(case, ctx):
 
 
 def part(tier):
-    return Part("task-module-bfs", run, enum=enum_states, cap_s={"quick": 300, "thorough": 3000})
+    return Part("task-module-bfs", run, enum=enum_states, cap_s={"quick": 300, "thorough": 3000}, presharded=True)
